@@ -67,14 +67,17 @@ static const family FAM12[] = { FAM_A(9), FAM_B, FAM_C(9), FAM_S, FAM_S4 }, FAM1
 static const family FAM13[] = { FAM_A(9), FAM_B, FAM_C(9) }, FAM13q[] = { FAM_Aq(9), FAM_B, FAM_Cq(9) };
 static const family FAM04X[] = { FAM_S, FAM_S4 }, FAM04Xq[] = { FAM_S, FAM_S4q };
 #define NF(F) ((int)(sizeof F / sizeof *F))
-#define DEFSPACE(tag, F, Fq, mode) \
-    static long sz_##tag(int tier) { return tier ? fam_total(F, NF(F)) : fam_total(Fq, NF(Fq)); } \
-    static void dec_##tag(int tier, long idx, vcase *c) { g_mode = mode; if (tier) fam_decode(F, NF(F), idx, c); else fam_decode(Fq, NF(Fq), idx, c); } \
-    static void desc_##tag(int tier, char *b, size_t cap) { if (tier) fam_describe(F, NF(F), b, cap); else fam_describe(Fq, NF(Fq), b, cap); }
-DEFSPACE(05, FAM05, FAM05q, 5)
-DEFSPACE(12, FAM12, FAM12q, 12)
-DEFSPACE(13, FAM13, FAM13q, 13)
-DEFSPACE(04x, FAM04X, FAM04Xq, 12)
+/* other build variants (vendor BLAS, sanitizers): the ALL(1..3) and DEV_1 families only */
+static const family FAM05v[] = { FAM_Aq(6), FAM_Cq(6) }, FAM12v[] = { FAM_Aq(9), FAM_Cq(9), FAM_S }, FAM13v[] = { FAM_Aq(9), FAM_Cq(9) }, FAM04Xv[] = { FAM_S };
+#define DEFSPACE(tag, F, Fq, Fv, mode) \
+    static const family *pick_##tag(int tier, int *nf) { if (strcmp(wk_variant, "ref")) { *nf = NF(Fv); return Fv; } if (tier) { *nf = NF(F); return F; } *nf = NF(Fq); return Fq; } \
+    static long sz_##tag(int tier) { int nf; const family *f = pick_##tag(tier, &nf); return fam_total(f, nf); } \
+    static void dec_##tag(int tier, long idx, vcase *c) { int nf; const family *f = pick_##tag(tier, &nf); g_mode = mode; fam_decode(f, nf, idx, c); } \
+    static void desc_##tag(int tier, char *b, size_t cap) { int nf; const family *f = pick_##tag(tier, &nf); fam_describe(f, nf, b, cap); }
+DEFSPACE(05, FAM05, FAM05q, FAM05v, 5)
+DEFSPACE(12, FAM12, FAM12q, FAM12v, 12)
+DEFSPACE(13, FAM13, FAM13q, FAM13v, 13)
+DEFSPACE(04x, FAM04X, FAM04Xq, FAM04Xv, 12)
 
 /* ------------------------------------------------------------- shared runner */
 typedef struct { xs s; dmat A_in, B_in, B_after; superlu_options_t opt; int flags; } xrun;
@@ -261,7 +264,7 @@ static void run_C13(const vcase *c, vres *r)
     if (!c->refine) {
         for (int j = 0; j < c->nrhs; j++) if (T->rld(X.s.ferr, j) != 1.0L || T->rld(X.s.berr, j) != 1.0L) { wk_fail(r, "norefine-ferr-berr", "refinement off but ferr[%d]=%Lg berr[%d]=%Lg (must be exactly 1)", j, T->rld(X.s.ferr, j), j, T->rld(X.s.berr, j)); goto done; }
         /* X must be the unrefined solution: redo the solve with the returned factors on the returned (scaled) B */
-        vf_dense Y; dmat Bc = X.B_after; dn_from_dense(&Y, T, &Bc, n, 0.0);
+        vf_dense Y; dmat Bc = X.B_after; dn_from_dense(&Y, T, &Bc, X.s.X.ld, 0.0);     /* same leading dimension as X: identical kernel path */
         SuperLUStat_t st; StatInit(&st); int inf2 = 0;
         trans_t trant = (c->stor == 0) ? (c->trans == 0 ? NOTRANS : c->trans == 1 ? TRANS : CONJ) : (c->trans == 0 ? TRANS : NOTRANS);
         T->gstrs(trant, &X.s.L, &X.s.U, X.s.perm_c, X.s.perm_r, &Y.M, &st, &inf2);
